@@ -1155,3 +1155,125 @@ Example C06_tr_print_runs :
   | CLite.Err _ => None
   end = Some (CLite.VInt 0, Some (CLite.VInt 2, CLite.VInt 0, CLite.VInt (-1))).
 Proof. exact TrExCmds.run_print_examples. Qed.
+
+(* ---------------------------------------------------------------------------------------------------------------------------------
+   The command-line loop of ex.c on the TRANSLATED C text (tools/c2clite.py -> GenCFuncs.v, whitelist tools/c2clite.d/99zzzzz_exparse.list):
+   ex_idx, ex_exec, ex_command; and the three scanners ex_loc / ex_cmd / ex_arg (30_ex.list, coq/TrEx.v) against THIS property's
+   parser (ExDefs.ex_loc / ex_cmd / ex_arg), through the bridge coq/ExCapParse.v between the capacity model of C05 and ExDefs.
+   Proofs: coq/TrExIdx.v, coq/TrExParse.v, coq/ExCapParse.v; the run: coq/TrExParseEx.v. *)
+From NV Require CLite CLiteProps CLiteTac CLiteExt GenCFuncs GenConsts CapDefs ExCapParse TrLbufBase TrLbuf UndoDefs TrEx TrExIdx TrExParse TrExParseEx.
+
+(* ex_loc(src, loc) with loc[EXLEN], for every NUL-free line shorter than EXLEN, from any position: the bytes stored are exactly the
+   address part ExDefs.ex_loc splits off (then the terminator; the rest of loc[] untouched: no store leaves the array), the pointer
+   returned is src + what the model consumed *)
+Theorem C06_tr_ex_loc : forall m bs bd s blk i d fuel,
+  CLiteProps.str_at m bs s -> nonul s -> nth_error m bd = Some blk -> Z.of_nat (length blk) = GenConsts.EXLEN -> bs <> bd ->
+  nth_error m TrEx.G_exloc = Some TrEx.gb_exloc -> TrEx.G_exloc <> bd ->
+  Z.of_nat (length s) < GenConsts.EXLEN -> (i <= length s)%nat -> (2 * S (length s) <= fuel)%nat ->
+  let rest := fst (ExDefs.ex_loc (skipn i s)) in
+  let loc := snd (ExDefs.ex_loc (skipn i s)) in
+  exists i', rest = skipn i' s /\ (i <= i' <= length s)%nat /\ (length loc < length blk)%nat /\
+    CLite.callf GenCFuncs.cprog fuel (S d) GenCFuncs.F_ex_loc [CLite.VPtr bs (Z.of_nat i); CLite.VPtr bd 0] m
+    = CLite.Ok (CLite.VPtr bs (Z.of_nat i'), CLiteProps.upd m bd (TrEx.cstr_cells loc ++ skipn (S (length loc)) blk)).
+Proof. exact TrExParse.tr_ex_loc_model. Qed.
+Print Assumptions C06_tr_ex_loc.
+
+(* ex_cmd(src, cmd): the command name of ExDefs.ex_cmd (alphabetic run of at most 16, "k" alone, one of ! = @ appended) *)
+Theorem C06_tr_ex_cmd : forall m bs bd s blk i d fuel,
+  CLiteProps.str_at m bs s -> nonul s -> nth_error m bd = Some blk -> Z.of_nat (length blk) = GenConsts.EXLEN -> bs <> bd ->
+  Z.of_nat (length s) < GenConsts.EXLEN -> (i <= length s)%nat -> (S (length s) <= fuel)%nat ->
+  let rest := fst (ExDefs.ex_cmd (skipn i s)) in
+  let cmd := snd (ExDefs.ex_cmd (skipn i s)) in
+  exists i', rest = skipn i' s /\ (i <= i' <= length s)%nat /\ (length cmd <= 17)%nat /\
+    CLite.callf GenCFuncs.cprog fuel (S d) GenCFuncs.F_ex_cmd [CLite.VPtr bs (Z.of_nat i); CLite.VPtr bd 0] m
+    = CLite.Ok (CLite.VPtr bs (Z.of_nat i'), CLiteProps.upd m bd (TrEx.cstr_cells cmd ++ skipn (S (length cmd)) blk)).
+Proof. exact TrExParse.tr_ex_cmd_model. Qed.
+Print Assumptions C06_tr_ex_cmd.
+
+(* ex_arg(src, arg, excmd): the argument of ExDefs.ex_arg for the command abbreviation e -- up to an unescaped | (or a double quote or a newline),
+   the whole rest of the line for ! g v and r / w with a !, through the closing delimiters for s & ~; a backslash takes the next byte along *)
+Theorem C06_tr_ex_arg : forall m bs bd be s e blk i d fuel,
+  CLiteProps.str_at m bs s -> nonul s -> nth_error m bd = Some blk -> Z.of_nat (length blk) = GenConsts.EXLEN -> bs <> bd ->
+  CLiteProps.str_at m be e -> nonul e -> be <> bd ->
+  Z.of_nat (length s) < GenConsts.EXLEN -> (i <= length s)%nat -> (S (length s) <= fuel)%nat ->
+  let rest := fst (ExDefs.ex_arg (skipn i s) e) in
+  let arg := snd (ExDefs.ex_arg (skipn i s) e) in
+  exists i', rest = skipn i' s /\ (i <= i' <= length s)%nat /\ (length arg < length blk)%nat /\
+    CLite.callf GenCFuncs.cprog fuel (S d) GenCFuncs.F_ex_arg [CLite.VPtr bs (Z.of_nat i); CLite.VPtr bd 0; CLite.VPtr be 0] m
+    = CLite.Ok (CLite.VPtr bs (Z.of_nat i'), CLiteProps.upd m bd (TrEx.cstr_cells arg ++ skipn (S (length arg)) blk)).
+Proof. exact TrExParse.tr_ex_arg_model. Qed.
+Print Assumptions C06_tr_ex_arg.
+
+(* ex_idx(cmd): the index of the first entry of excmds[] whose abbreviation or name is cmd, else -1 -- over the generated table; and the
+   generated table against this model's CMDS / OTHER lists *)
+Theorem C06_tr_ex_idx : forall m bc cmd d fuel,
+  TrExIdx.excmds_at m -> TrExIdx.pstr_at m bc cmd -> nonul cmd -> (S TrExIdx.NCMDS < fuel)%nat ->
+  CLite.callf GenCFuncs.cprog fuel (S d) GenCFuncs.F_ex_idx [CLite.VPtr bc 0] m
+  = CLite.Ok (CLite.VInt (TrExIdx.idx_res (CapDefs.ex_idx cmd)), m).
+Proof. exact TrExIdx.tr_ex_idx. Qed.
+Print Assumptions C06_tr_ex_idx.
+Theorem C06_tr_excmds_table : forall m, CLiteTac.globals_at m -> TrExIdx.excmds_at m.
+Proof. exact TrExIdx.excmds_at_globals. Qed.
+Print Assumptions C06_tr_excmds_table.
+Theorem C06_ex_idx_tables : forall cmd,
+  match CapDefs.ex_idx cmd with
+  | Some (k, ab) => (ex_idx cmd = Some ab /\ is_other cmd = false) \/ (ex_idx cmd = None /\ is_other cmd = true)
+  | None => ex_idx cmd = None /\ is_other cmd = false
+  end.
+Proof. exact ExCapParse.ex_idx_bridge. Qed.
+Print Assumptions C06_ex_idx_tables.
+
+(* ex_exec(ln) for every line shorter than EXLEN and EVERY oracle: whenever the run the model prescribes exists (TrExParse.runs: per
+   command the pieces of the parser written to loc / cmd / arg, then ex_txt, then excmds[idx].ec(loc, cmd, arg, txt) -- a call to the
+   oracle index X_indirect with the address of the table cell -- or ex_show("unknown command"), then free(txt)), the translated C text
+   performs exactly it: the same calls on the same memories in the same order, the value of the last command returned *)
+Theorem C06_tr_ex_exec : forall ext m bs s d fuel n tr ret m',
+  CLiteProps.str_at m bs s -> nonul s -> Z.of_nat (length s) < GenConsts.EXLEN ->
+  (length GenCFuncs.cglobals <= length m)%nat -> (2 * S (length s) <= fuel)%nat -> (S TrExIdx.NCMDS < fuel)%nat -> (n < fuel)%nat ->
+  TrExParse.runs ext bs s (length m) (S (length m)) (S (S (length m))) n tr 0 0 (TrExParse.exec_mem m) ret m' ->
+  CLiteExt.callx ext GenCFuncs.cprog fuel (S (S d)) GenCFuncs.F_ex_exec [CLite.VPtr bs 0] m = CLite.Ok (CLite.VInt ret, m').
+Proof. exact TrExParse.tr_ex_exec. Qed.
+Print Assumptions C06_tr_ex_exec.
+
+(* ... and the (loc, cmd, arg) triples the oracles were fed are ExDefs' parse of the line, left to right (for the commands of the model;
+   an excmds[] entry outside it gets its own abbreviation in C where ExDefs passes "unknown" to ex_arg) *)
+Theorem C06_tr_ex_exec_parse : forall ext bs s bl bc ba n tr ret m ret' m', nonul s ->
+  TrExParse.runs ext bs s bl bc ba n tr 0 ret m ret' m' ->
+  Forall (fun r => ExCapParse.supported (TrExParse.rec_cmd r) = true) tr ->
+  map TrExParse.triple_of tr = ExCapParse.parse_line (S (length s)) s.
+Proof. exact TrExParse.runs_parse_line. Qed.
+Print Assumptions C06_tr_ex_exec_parse.
+
+(* strlen(ln) >= EXLEN: the message and 1; no scanner runs (the guard in front of loc / cmd / arg[EXLEN]) *)
+Theorem C06_tr_ex_exec_long : forall ext m bs s d fuel u m',
+  CLiteProps.str_at m bs s -> nonul s -> GenConsts.EXLEN <= Z.of_nat (length s) -> Z.of_nat (length s) < 4294967296 ->
+  ext GenCFuncs.X_ex_show [CLite.VPtr TrExParse.G_msg_long 0] (TrExParse.exec_mem m) = CLite.Ok (u, m') ->
+  CLiteExt.callx ext GenCFuncs.cprog fuel (S (S d)) GenCFuncs.F_ex_exec [CLite.VPtr bs 0] m = CLite.Ok (CLite.VInt 1, m').
+Proof. exact TrExParse.tr_ex_exec_long. Qed.
+Print Assumptions C06_tr_ex_exec_long.
+
+(* ex_command(ln): below 16 nested levels depth++, ex_exec(ln) (oracle), depth--, then lbuf_modified(xb) through the translated
+   lbuf_modified (the sequence number of the buffer moves: one command line = one undo step), ex_exec's value returned *)
+Theorem C06_tr_ex_command : forall ext m v dep r m1 dep1 gbufs bl blk lb d fuel,
+  nth_error m GenCFuncs.G_ex_command__depth = Some [CLite.VInt dep] -> 0 <= dep < 16 ->
+  ext GenCFuncs.X_ex_exec [v] (CLiteProps.upd m GenCFuncs.G_ex_command__depth [CLite.VInt (dep + 1)]) = CLite.Ok (CLite.VInt r, m1) ->
+  nth_error m1 GenCFuncs.G_ex_command__depth = Some [CLite.VInt dep1] -> TrLbufBase.i32 dep1 -> TrLbufBase.i32 (dep1 - 1) ->
+  let m2 := CLiteProps.upd m1 GenCFuncs.G_ex_command__depth [CLite.VInt (dep1 - 1)] in
+  nth_error m2 GenCFuncs.G_bufs = Some gbufs -> nth_error gbufs TrExParse.BUFS_LB = Some (CLite.VPtr bl 0) ->
+  TrLbuf.lbuf_rep m2 bl blk lb -> TrLbuf.lbuf_ints lb -> UndoDefs.useq lb < 2147483647 -> v <> CLite.VUndef ->
+  CLiteExt.callx ext GenCFuncs.cprog fuel (S (S (S d))) GenCFuncs.F_ex_command [v] m
+  = CLite.Ok (CLite.VInt r, CLiteProps.upd m2 bl (CLiteProps.upd blk TrLbufBase.L_useq (CLite.VInt (UndoDefs.useq lb + 1)))).
+Proof. exact TrExParse.tr_ex_command. Qed.
+Print Assumptions C06_tr_ex_command.
+
+(* non-vacuity: the translated ex_exec RUNS on "1,2p|zz x|s/a|b/c/|g/re/d|p" with a logging oracle: four commands, the | inside the
+   substitute and the global arguments kept, the unknown command reported, (cell offset of excmds[idx].ec; loc; cmd; arg) logged per call;
+   and a `runs` derivation exists for "1p|zz" (the hypotheses of C06_tr_ex_exec are satisfiable) *)
+Example C06_tr_ex_exec_runs : TrExParseEx.run_line TrExParseEx.ln1 =
+  Some (CLite.VInt 0, [[56; 49; 44; 50; -1; 112; -1]; [-2; 0]; [95; -1; 115; -1; 47; 97; 124; 98; 47; 99; 47]; [38; -1; 103; -1; 47; 114; 101; 47; 100; 124; 112]]).
+Proof. exact TrExParseEx.run_ex_exec. Qed.
+Example C06_tr_ex_exec_nonvacuous : exists tr m',
+  TrExParse.runs TrExParseEx.log_ext TrExParseEx.BS TrExParseEx.s2 (S TrExParseEx.BS) (S (S TrExParseEx.BS)) (S (S (S TrExParseEx.BS))) 2 tr 0 0
+    (TrExParse.exec_mem TrExParseEx.m2) 0 m' /\
+  map TrExParse.triple_of tr = [([49%N], [112%N], []); ([], [122; 122]%N, [])].
+Proof. exact TrExParseEx.runs_nonvacuous. Qed.
